@@ -417,7 +417,7 @@ def main():
     print("C19 seed=%d tier=%s scenarios=%d" % (seed, tier, total))
     try:
         results = driver.run_shards(
-            shard_main, payloads, cap_s=600 if tier == "quick" else 7200)
+            shard_main, payloads, cap_s=900 if tier == "quick" else 21600)
     except driver.HarnessError as ex:
         print("HARNESS-ERROR: %s" % ex)
         sys.exit(2)
